@@ -193,3 +193,8 @@ impl ObjectCountBuilder {
         }
     }
 }
+
+// Verification hook (compiled only by `cargo kani`, which sets `--cfg kani`).
+#[cfg(kani)]
+#[path = "/verif/harness/catch_attrs.rs"]
+pub(crate) mod verif_harness;
